@@ -21,6 +21,12 @@ CHECKS["C05"] = dict(level="exploration", engine="sweep",
    note="Adversarial proofs are exhaustive only for Count/GF(17); deployed-field soundness uses seeded lines (a line lies in the zero set with probability ~2^-60).",
    design="§2 C05")
 
+CHECKS["C02"] = dict(level="fault_enumeration", engine="sweep",
+   technique="fault enumeration on the real Prio3 code: exhaustive invalid inputs x randomness over GF(17) with exact acceptance counting, invalid-encoding menu through an honest-proof Raw client, byte-level tamper enumeration of every message, verifier-share list manipulations",
+   text="(a) every invalid input x every randomness over GF(17) with exact acceptance counts vs the soundness bound and every adversarial proof for Count/GF(17); (b) a menu of invalid encodings (non-bits at boundary positions, bit flips, affine-preserving near misses; all of F^n for tiny instances) is sharded with honestly computed proofs by Prio3<Raw<T>> for honest Prio3<T> aggregators over 2..5 aggregators, 1..3 proofs and a key/nonce tape alphabet, and the outcome is compared with the decision the specification prescribes for the randomness derived by an independent transcription of the draft; (c) every byte of the public share, each input share, each verifier share and the verifier message x an alteration alphabet (all 8 bit flips, +-1, 0, 0xff; every byte value over 1-byte fields), pairs of alterations, and dropped/duplicated/reordered/substituted/zeroed verifier shares: some aggregator must fail, and whenever all finish the outputs must sum to the truncation of a valid encoding.",
+   note="Deployed fields: a passing invalid encoding / single-byte alteration has probability ~2^-57 per case and is treated as a violation. The (b) predictor uses the library FLP on the whole input (decided independently by C05). Adversarial proofs are exhaustive for Count/GF(17) only.",
+   design="§2 C02")
+
 NOT_APPLICABLE = {}
 
 def main():
